@@ -4,6 +4,7 @@ import importlib
 import io
 import os
 import runpy
+import signal
 import sys
 import threading
 import types
@@ -32,6 +33,17 @@ _sched.install(M)
 
 ENTRY = os.path.join(REPO, 'ssh-audit.py')
 _ENTRY_CODE = None
+
+# CPU watchdog: the operation budget sees every loop that waits on the peer, but not a computation that never comes back to the
+# environment (a regular expression that backtracks for ever on peer-chosen text, a loop over a peer-chosen count).  Process CPU
+# time (ITIMER_VIRTUAL), not wall time, so that a loaded machine cannot turn a slow execution into a verdict; an ordinary audit
+# uses a few milliseconds.  Only the process's main thread can be interrupted this way; gate-scheduled runs are not covered.
+CPU_LIMIT_S = float(os.environ.get('VERIF_CPU_LIMIT', '30'))
+
+
+def _cpu_alarm(signum, frame):
+    raise vnet.Hang('cpu budget of %.0f s exhausted without returning to the environment (at %s:%d)'
+                    % (CPU_LIMIT_S, frame.f_code.co_filename if frame else '?', frame.f_lineno if frame else 0))
 
 _BASIC = (str, int, float, bool, bytes, type(None), list, dict, set, tuple)
 
@@ -168,6 +180,11 @@ def run_cli(argv, world=None, env=None, files=None, reset=True, keep_state=False
     if env:
         os.environ.update(env)
     status = None
+    armed = False
+    if CPU_LIMIT_S > 0 and threading.current_thread() is threading.main_thread():
+        signal.signal(signal.SIGVTALRM, _cpu_alarm)
+        signal.setitimer(signal.ITIMER_VIRTUAL, CPU_LIMIT_S)
+        armed = True
     try:
         if _ENTRY_CODE is None:
             with open(ENTRY, 'rb') as f:
@@ -190,6 +207,8 @@ def run_cli(argv, world=None, env=None, files=None, reset=True, keep_state=False
             res.exc = '%s: %s' % (type(e).__name__, e)
             status = 1 if isinstance(e, KeyboardInterrupt) else -998
     finally:
+        if armed:
+            signal.setitimer(signal.ITIMER_VIRTUAL, 0)
         sys.argv, sys.stdout, sys.stderr = old
         sys.path[:] = old_path
         os.environ.clear()
